@@ -228,7 +228,8 @@ class GenericArrayView final {
   template <class OtherElementView, class OtherBufferType>
   bool Equals(
       const GenericArrayView<OtherElementView, OtherBufferType, kElementSize,
-                             kAddressableUnitSize> &other) const {
+                             kAddressableUnitSize,
+                             ElementViewParameterTypes...> &other) const {
     if (ElementCount() != other.ElementCount()) return false;
     for (::std::size_t i = 0; i < ElementCount(); ++i) {
       if (!(*this)[i].Equals(other[i])) return false;
@@ -238,7 +239,8 @@ class GenericArrayView final {
   template <class OtherElementView, class OtherBufferType>
   bool UncheckedEquals(
       const GenericArrayView<OtherElementView, OtherBufferType, kElementSize,
-                             kAddressableUnitSize> &other) const {
+                             kAddressableUnitSize,
+                             ElementViewParameterTypes...> &other) const {
     if (ElementCount() != other.ElementCount()) return false;
     for (::std::size_t i = 0; i < ElementCount(); ++i) {
       if (!(*this)[i].UncheckedEquals(other[i])) return false;
